@@ -4,7 +4,7 @@
 (* A *machine*: one exception is raised at the fault leaf of a spec tree (RaiseAt),     *)
 (* travels up through the enclosing constructs -- one named action per construct that    *)
 (* documents a catch (CatchCoalesce, CatchOr, CatchAnd, CatchNot, CatchMatchDefault,     *)
-(* CatchSwitch, CatchCheck, CatchPathGet) or lets it pass (Pass) -- and finally meets    *)
+(* CatchSwitch, CatchCheck, CatchPathGet) or lets it pass (Pass, PassIter) -- and meets  *)
 (* the except blocks of glom() (TopSkip / TopBase / TopDebug / TopCopy / TopWrap) under  *)
 (* a combination of the keyword arguments default / skip_exc / glom_debug.               *)
 (*                                                                                      *)
@@ -135,6 +135,13 @@ UpCheckVal(c, l, x) == IF IsExc(x) THEN Raised(GlomDoc("CheckError"), "new") ELS
 \* and sometimes others")
 UpPathGet(c, l, x) == IF IsExc(x) THEN Raised(GlomDoc("PathAccessError"), "new") ELSE x
 
+\* [subspec] over a target that is a one-shot iterator (generator, iterator object): an exception
+\* raised by the target's own next() while the list spec walks it is the user's exception and
+\* travels on unchanged (only a failing iter() is reported as "failed to iterate").
+\* Mutant "iter_wraps": the walk is inside the guard and the error becomes a TypeError.
+UpGenIter(c, l, x) ==
+  IF Mutant = "iter_wraps" /\ IsExc(x) THEN Raised(TypeErrorCls, "new") ELSE x
+
 GlomOnlyCatchers == {"or", "and", "not", "matchdef", "switch"}   \* documented to catch GlomError only
 
 Up(c, l, x, leafid) ==
@@ -148,6 +155,7 @@ Up(c, l, x, leafid) ==
     [] c.k = "checkspec" -> UpCheckSpec(c, l, x)
     [] c.k = "checkval"  -> UpCheckVal(c, l, x)
     [] c.k = "pathget"   -> UpPathGet(c, l, x)
+    [] c.k = "geniter"   -> UpGenIter(c, l, x)
 
 \* ======================================================================================
 \* 3. MECHANISM: the except blocks of glom()   (glom/core.py, glom() and GlomError.wrap)
@@ -158,7 +166,17 @@ MechDefault(kw) == IF kw.default # "absent" THEN kw.default
                    ELSE IF kw.skip # "absent" THEN "none" ELSE "missing"
 MechSkipSet(kw, leafid) == IF kw.skip # "absent" THEN SkipSet(kw.skip, leafid)
                            ELSE IF MechDefault(kw) = "missing" THEN <<>> ELSE <<"GlomError">>
-TopValue(d) == IF d = "obj" THEN Value("topdflt", 0) ELSE Value("none", 0)
+\* ret = default        (the object itself; kw.default names which kind of object the caller
+\* passed: "obj" an opaque object, "list" a list, "dictT" a dict holding a T expression that
+\* would fail if evaluated, "t" T itself, "none" None)
+\* Mutant "default_arg_val": ret = arg_val(target, default, scope) -- containers are rebuilt,
+\* T-like content is evaluated against the target
+TopValue(d) ==
+  IF d = "none" THEN Value("none", 0)
+  ELSE IF Mutant = "default_arg_val" /\ d = "list" THEN Value("copy", 0)
+  ELSE IF Mutant = "default_arg_val" /\ d = "t" THEN Value("tgt", 0)
+  ELSE IF Mutant = "default_arg_val" /\ d = "dictT" THEN Raised(GlomDoc("PathAccessError"), "new")
+  ELSE Value("topdflt", 0)
 
 \* the wrapper class built by GlomError.wrap: type(name, (exc_type, GlomError), {})
 WrapCls(c) == [c EXCEPT !.anc = c.anc \o (IF InSeq("GlomError", c.anc) THEN <<>> ELSE <<"GlomError">>),
@@ -237,7 +255,7 @@ LawSkipSet(kw, leafid) == IF kw.skip # "absent" THEN SkipSet(kw.skip, leafid)
 LawDefaultSelective(kw, a, o, leafid) ==
   IF ~IsRaised(a) THEN o = a                                   \* a result is never replaced
   ELSE IF Matches(a.cls, LawSkipSet(kw, leafid))
-       THEN o = (IF kw.default = "obj" THEN Value("topdflt", 0) ELSE Value("none", 0))
+       THEN o = (IF kw.default \in {"absent", "none"} THEN Value("none", 0) ELSE Value("topdflt", 0))
        ELSE IsRaised(o)
 \* "glom_debug=True propagates the original exception object"
 LawDebug(kw, a, o) == (kw.debug /\ IsRaised(a) /\ IsRaised(o)) => o.id = a.id
@@ -294,6 +312,7 @@ CatchSwitch       == Step("switch", "CatchSwitch")
 CatchCheckSpec    == Step("checkspec", "CatchCheckSpec")
 CatchCheckVal     == Step("checkval", "CatchCheckVal")
 CatchPathGet      == Step("pathget", "CatchPathGet")
+PassIter          == Step("geniter", "PassIter")
 \* Not(child) with a passing child is C10's business (pre-seen defect there): left out
 Exclude ==
   /\ ph = "up" /\ lvl > 0 /\ ctxs[lvl].k = "not" /\ ~IsRaised(x)
@@ -314,7 +333,7 @@ TopWrap(k)   == Top(k, "wrap", "TopWrap", DoWrap(x))
 TopLevel(k)  == TopReturn(k) \/ TopSkip(k) \/ TopBase(k) \/ TopDebug(k) \/ TopCopy(k) \/ TopWrap(k)
 
 Travel == Pass \/ CatchCoalesce \/ CatchOr \/ CatchAnd \/ CatchNot \/ CatchMatchDefault
-          \/ CatchSwitch \/ CatchCheckSpec \/ CatchCheckVal \/ CatchPathGet \/ Exclude
+          \/ CatchSwitch \/ CatchCheckSpec \/ CatchCheckVal \/ CatchPathGet \/ PassIter \/ Exclude
 
 \* ---- the laws as predicates over the machine -------------------------------------------
 Done == ph = "done"
